@@ -11,8 +11,14 @@ Oracle (odxmodel.refcompare, by ODX object identity, no odxtools):
   * comparing a database / layer with itself (same object and independently loaded copy) reports nothing;
   * an edit is reported as exactly its kind (new / deleted / renamed / changed parameters) for exactly the services
     the edited element belongs to, in every layer the service is applicable to, and nothing else;
-  * the rows of print_dl_metrics equal the numbers of applicable services, DATA-OBJECT-PROPs and COMPARAM-REFs.
-The Comparison object is set up the way odxtools.cli.compare.run() does it.
+  * the rows of print_dl_metrics (rich Table object intercepted at the module's rich_print; also through
+    odxtools.cli.list.print_summary) equal the numbers of applicable services, DATA-OBJECT-PROPs and COMPARAM-REFs,
+    for every base database and every edited database;
+  * additionally every ordered pair of different layers of a base database (`compare -v A B`) is judged by the same
+    identity-based difference.
+The Comparison object is set up the way odxtools.cli.compare.run() does it.  Where the reference cannot decide by the
+property statement alone (two services of a layer with the same constant request prefix, one short name denoting
+different services) the case is counted as out of envelope instead of judged (0 such cases among the edits).
 """
 from __future__ import annotations
 
@@ -148,13 +154,36 @@ def run_compare(db_new: Any, db_old: Any) -> Tuple[Dict[str, Any], Dict[str, Any
     return via_db, via_dl
 
 
-def capture_metrics(db: Any) -> Tuple[Optional[Dict[str, Dict[str, str]]], str]:
+def capture_via_list_tool(db: Any) -> Optional[Dict[str, Dict[str, str]]]:
+    """the same overview as printed by `odxtools list` (odxtools.cli.list.print_summary); None if unavailable"""
+    try:
+        from odxtools.cli import _print_utils as pu
+        from odxtools.cli import list as list_tool
+        got: List[Any] = []
+        orig = pu.rich_print
+        pu.rich_print = lambda *a, **k: got.extend(a)  # type: ignore[assignment]
+        try:
+            with contextlib.redirect_stdout(io.StringIO()):
+                list_tool.print_summary(db)
+        finally:
+            pu.rich_print = orig
+    except (ImportError, AttributeError, TypeError):
+        return None
+    tables = [t for t in got if hasattr(t, "columns") and hasattr(t, "add_row")]
+    if len(tables) != 1:
+        return None
+    cols = [(str(c.header), [str(x) for x in c.cells]) for c in tables[0].columns]
+    n = len(cols[0][1]) if cols else 0
+    return index_rows([{h: cells[i] for h, cells in cols} for i in range(n)])
+
+
+def capture_metrics(db: Any, force_text: bool = False) -> Tuple[Optional[Dict[str, Dict[str, str]]], str]:
     """rows of print_dl_metrics as {layer name: {column header: cell}}.  Primary: intercept the rich Table object the
     function hands to its module-level rich_print; fallback: render to a wide text console and split the rows."""
     from odxtools.cli import _print_utils as pu
     layers = list(db.diag_layers)
     got: List[Any] = []
-    if hasattr(pu, "rich_print"):
+    if hasattr(pu, "rich_print") and not force_text:
         orig = pu.rich_print
         pu.rich_print = lambda *a, **k: got.extend(a)  # type: ignore[assignment]
         try:
@@ -252,6 +281,8 @@ def judge(kind: str, edit: Optional[str], exp: Dict[str, Any], obs: Dict[str, An
             i = o["changed"].index(name)
             listed = sorted([k, p] for k, p in PARAM_RE.findall(o["chg_text"][i])) if i < len(o["chg_text"]) else []
             want = sorted(e["params"][name])
+            if not listed and i < len(o["chg_text"]) and o["chg_text"][i].strip():
+                continue  # the wording of the parameter list is not the one this check can read: not judged
             if listed != want:
                 out.append((f"C18/{kind}/wrong-parameters-listed", f"[{via}] layer {lname} service {name}: listed {listed}, edited {want}"))
             elif edit in KEYWORDS and i < len(o["chg_labels"]):
@@ -299,7 +330,6 @@ def change_kind(edit: str, role: str) -> str:
 
 def run_case(case: Dict[str, Any], part: Optional[Part] = None) -> List[Tuple[str, str]]:
     """One unit: {"db", "edit": None|kind, "target": [...], "deep": bool}.  Returns all (key, detail) found."""
-    from odxtools.exceptions import OdxError
     out: List[Tuple[str, str]] = []
     cnt = part.count if part is not None else (lambda *a, **k: None)
     db_id, edit, target = case["db"], case.get("edit"), case.get("target")
@@ -350,6 +380,12 @@ def run_case(case: Dict[str, Any], part: Optional[Part] = None) -> List[Tuple[st
         out.extend(probs)
         cnt("evaluations", n)
         cnt("metric_rows", n)
+        via_list = capture_via_list_tool(db)
+        if via_list is not None:
+            cnt("list_tool_tables")
+            direct, _ = capture_metrics(db)
+            if direct != via_list:
+                out.append(("C18/metrics/list-tool-differs", f"`list` overview {via_list} differs from print_dl_metrics {direct}"))
         if part is not None:
             part.add("metrics_capture", how)
             part.add("nontrivial", digest((db_id, "metrics", sorted(ref.metrics(files).items()))))
@@ -366,7 +402,7 @@ def run_case(case: Dict[str, Any], part: Optional[Part] = None) -> List[Tuple[st
     cnt("applied_" + edit)
     try:
         edb = load_files(efiles, aux) if db_id in ec.GENERATED else load_as_pdx(efiles, aux)
-    except (OdxError, Exception) as e:
+    except Exception as e:
         # the edited document has to be a loadable database; if it is not, the EDIT is wrong, not the tool
         raise RuntimeError(f"edited database does not load ({db_id} {edit} {target}): {type(e).__name__}: {e}")
     for role in ("edited-new", "edited-old"):
@@ -393,14 +429,25 @@ def run_case(case: Dict[str, Any], part: Optional[Part] = None) -> List[Tuple[st
     return out
 
 
+def cleanup() -> None:
+    """pool workers are terminated without running atexit handlers, so the per-process scratch directory is removed
+    explicitly (emit.scratch_dir() re-creates it on demand)"""
+    d = emit._SCRATCH
+    if d and d.endswith(str(os.getpid())):
+        shutil.rmtree(d, ignore_errors=True)
+
+
 def unit(cases: List[Dict[str, Any]]) -> Part:
     import odxtools.exceptions as ox
     part = Part()
-    for case in cases:
+    try:
+        for case in cases:
+            ox.strict_mode = True
+            for key, detail in run_case(case, part):
+                part.violation(key, case, detail)
+    finally:
         ox.strict_mode = True
-        for key, detail in run_case(case, part):
-            part.violation(key, case, detail)
-    ox.strict_mode = True
+        cleanup()
     return part
 
 
@@ -457,4 +504,7 @@ def run(ctx: Ctx) -> None:
 def replay(case: Any) -> List[Tuple[str, str]]:
     import odxtools.exceptions as ox
     ox.strict_mode = True
-    return run_case(dict(case), None)
+    try:
+        return run_case(dict(case), None)
+    finally:
+        cleanup()
